@@ -312,6 +312,7 @@ def execute(fn, args, ctx, depth=0):
             elif re.match(r'^[A-Z]\w*(::<.*>)?::\w+\(.*\)$', rv):                    # tuple variant aggregate
                 head, argstr = rv.split('(', 1)
                 parts = head.split('::'); val = V(parts[0], parts[-1], [operand(fr, x) for x in split_top(argstr[:-1])])
+            elif rv.startswith('[') and rv.endswith(']'): val = ('array', [operand(fr, x) for x in split_top(rv[1:-1])])
             else: raise Unsupported('rvalue ' + rv)
             write(fr, dst, val)
         else:
